@@ -175,6 +175,28 @@ prop(
     explanation="",
 )
 
+prop(
+    "C13",
+    contract_modules=["contracts.c13"],
+    bcc="c13",
+    level="other",
+    claimed=False,
+    trusted=["vectorize_sse.h:fvec4", "libm.axioms", "C.int"],
+    assumptions=["sphere points are unit vectors, radii non-negative, no two atoms coincide (preconditions of asa_frame)"],
+    explanation="",
+)
+
+prop(
+    "C08",
+    contract_modules=["contracts.c13"],
+    bcc="c08",
+    level="other",
+    claimed=False,
+    trusted=["vectorize_sse.h:fvec4", "libm.axioms", "C.int"],
+    assumptions=["#pragma omp is not interpreted: the verified statement is per call of the per-frame kernel with ARBITRARY scratch-buffer contents on entry, which covers every schedule"],
+    explanation="",
+)
+
 # ---- stubs (filled in as the contracts are written) -------------------------------------------
 _BOUNDED_TEXT = ("Bounded contract check only at this commit: the property's contracts are evaluated at run time on the real code over the "
                  "enumerated input space stated in evidence (coverage.bounded); labelled bounded, nothing is counted as proved. "
